@@ -163,8 +163,15 @@ OsMark(ev, L) ==
        [] OTHER -> UNCHANGED <<maps, now, round, dirtyU, cand, t0set, lastInuse, refusedU, prevQ, oscfg>>
 
 \* C11: everything has been freed, threads are done, the main thread force-collected
-InArenas(s, arenasL) == \E i \in 1..Len(arenasL) :
-   LET aa == <<arenasL[i][1], arenasL[i][2]>> IN InsideR(s.a, s.e, aa, AddP(aa, <<arenasL[i][3], arenasL[i][4]>>))
+\* a mapping lies in arena memory if the arenas cover it (adjacent mappings are merged in `maps`, so one mapping can span several arenas)
+ArenaRange(ar) == LET aa == <<ar[1], ar[2]>> IN <<aa, AddP(aa, <<ar[3], ar[4]>>)>>
+RECURSIVE CoveredFrom(_, _, _, _)
+CoveredFrom(a, e, arenasL, fuel) ==
+  IF LeA(e, a) THEN TRUE
+  ELSE IF fuel = 0 THEN FALSE
+  ELSE LET hits == {i \in 1..Len(arenasL) : LeA(ArenaRange(arenasL[i])[1], a) /\ LtA(a, ArenaRange(arenasL[i])[2])} IN
+       IF hits = {} THEN FALSE ELSE CoveredFrom(ArenaRange(arenasL[CHOOSE i \in hits : TRUE])[2], e, arenasL, fuel - 1)
+InArenas(s, arenasL) == CoveredFrom(s.a, s.e, arenasL, Len(arenasL))
 IsTable(s) == oscfg.segmap_part > 0 /\ PagesOf(s) * 4096 = oscfg.segmap_part
 Refused(s) == UnitsCovering(s.a, s.e) \cap refusedU # {}
 OsQuiesce(ev, L) ==
